@@ -164,6 +164,10 @@ func upper(t *rt.Thread, c *rt.GoCont) (rt.Cont, error) {
 	return c.PushingNext1(t.Runtime, rt.StringValue(s)), nil
 }
 
+// maxRepSize is the largest string string.rep agrees to build: beyond it the Go
+// allocator does not fail, it panics.
+const maxRepSize = 1 << 40
+
 func rep(t *rt.Thread, c *rt.GoCont) (rt.Cont, error) {
 	if err := c.CheckNArgs(2); err != nil {
 		return nil, err
@@ -195,8 +199,9 @@ func rep(t *rt.Thread, c *rt.GoCont) (rt.Cont, error) {
 		return c.PushingNext1(t.Runtime, rt.StringValue(ls)), nil
 	}
 	if sep == nil {
-		if len(ls)*n/n != len(ls) {
-			// Overflow
+		if len(ls)*n/n != len(ls) || len(ls)*n > maxRepSize {
+			// Overflow, or more than can be allocated at all (which would
+			// make the allocation panic rather than fail)
 			return nil, errors.New("rep causes overflow")
 		}
 		t.RequireBytes(n * len(ls))
@@ -207,7 +212,7 @@ func rep(t *rt.Thread, c *rt.GoCont) (rt.Cont, error) {
 	sz1 := n * len(s)
 	sz2 := (n - 1) * len(sep)
 	sz := sz1 + sz2
-	if sz1/n != len(s) || sz2/(n-1) != len(sep) || sz < 0 {
+	if sz1/n != len(s) || sz2/(n-1) != len(sep) || sz < 0 || sz > maxRepSize {
 		return nil, errors.New("rep causes overflow")
 	}
 	if sz == 0 {
